@@ -257,13 +257,40 @@ func captureParams(f *ast.File) {
 			continue
 		}
 		var names []string
+		// parameters that the body assigns, and func-typed parameters (lock wrappers are recognised by "the parameter is
+		// only ever called"), are left alone: capturing those is not a neutral edit for the analyses' idioms
+		assigned := map[string]bool{}
+		ast.Inspect(fd.Body, func(n ast.Node) bool {
+			switch x := n.(type) {
+			case *ast.AssignStmt:
+				for _, l := range x.Lhs {
+					if id, ok := l.(*ast.Ident); ok {
+						assigned[id.Name] = true
+					}
+				}
+			case *ast.IncDecStmt:
+				if id, ok := x.X.(*ast.Ident); ok {
+					assigned[id.Name] = true
+				}
+			case *ast.RangeStmt:
+				for _, l := range []ast.Expr{x.Key, x.Value} {
+					if id, ok := l.(*ast.Ident); ok {
+						assigned[id.Name] = true
+					}
+				}
+			}
+			return true
+		})
 		add := func(fl *ast.FieldList) {
 			if fl == nil {
 				return
 			}
 			for _, fld := range fl.List {
+				if _, isFunc := fld.Type.(*ast.FuncType); isFunc {
+					continue
+				}
 				for _, nm := range fld.Names {
-					if nm.Name != "_" {
+					if nm.Name != "_" && !assigned[nm.Name] {
 						names = append(names, nm.Name)
 					}
 				}
